@@ -358,8 +358,13 @@ pub fn run_group(g: &dyn Group, cfg: &RunCfg) -> Report {
         }
         // monitors
         for v in &outs[i].violations {
-            if rep.violations.len() >= 20 {
+            // keep (and shrink) at most 4 violations per kind and 60 in all, so that a frequent kind — e.g. a listed
+            // known finding — cannot crowd a different, new kind out of the report
+            if rep.violations.len() >= 60 {
                 break;
+            }
+            if rep.violations.iter().filter(|w| w.kind == v.kind).count() >= 4 {
+                continue;
             }
             let kind = v.kind.clone();
             let upto = (v.at + 1).min(c.len());
